@@ -123,7 +123,12 @@ func (c *Cache[T]) ClearExpired() {
 	if len(toclear) > 0 {
 		c.mu.Lock()
 		for _, k := range toclear {
-			delete(c.data, k)
+			// the entry may have been replaced by a fresh one between the
+			// scan above and taking the write lock: only delete what is
+			// still expired
+			if item, ok := c.data[k]; ok && item.Expires > 0 && now > item.Expires {
+				delete(c.data, k)
+			}
 		}
 		c.mu.Unlock()
 	}
